@@ -35,9 +35,12 @@ RULE = (
     "non-trivial = at least one declaration or metadata line. read: files with 0-3 haplotypes, 0-2 repeats, 0-3 "
     "variants per haplotype, 0-3 str/int/float extras per line type, declared columns a permutation / superset / "
     "subset of what the reader's classes request, sorted and shuffled line orders, plain and gzip, comment lines "
-    "inserted anywhere; non-trivial = at least one record line and (an inserted comment or a bound extra). "
+    "inserted anywhere; non-trivial = at least one record line and (an inserted comment or a bound extra); a quarter "
+    "of the read cases re-use one Haplotypes object (read file A, then point it at file B with another header "
+    "layout, or write over A and read again) and demand the result a fresh object gives for the file on disk. "
     "roundtrip: generated collections written, read back (same classes or classes asking for fewer extras) and "
-    "written again; non-trivial = at least one record. Distinct = distinct canonical JSON."
+    "written again, after which the same reader object reads its own file and writes it a third time (second "
+    "sub-case); non-trivial = at least one record. Distinct = distinct canonical JSON."
 )
 TRUSTED = [
     "tokenisation of non-'#' lines (line[0], line[1], line[2:].split('\\t')) and interning of field texts are done by the harness",
@@ -109,6 +112,8 @@ def _logger():
 def classify_logs(msgs, cfg):
     out = []
     for m in msgs:
+        if m == "The data has already been loaded. Overriding.":
+            continue  # Data.read on an object that is used again; not part of what is compared
         a = re.match(r"^The version of the provided \.hap file is v(.*) but this tool only works with", m, re.S)
         b = re.match(r"^The version of the provided \.hap file \(v(.*)\) is outdated\. Consider upgrading", m, re.S)
         c = re.match(r"^Ignoring unsupported line type '(.)'$", m, re.S)
@@ -220,6 +225,54 @@ def do_read(cfg, lines, sel, gz, d, tag):
         return {"ok": {"data": observe_data(hp, classes), "logs": classify_logs(h.recs, cfg)}}
     except Exception as e:  # noqa
         return {"err": refine_err(e), "cls": type(e).__name__, "msg": str(e)[:120]}
+
+
+def do_reuse(cfg, prior, lines, sel, gz, d):
+    """One Haplotypes object reads file A (prior) and is then used again.
+
+    op 'point'  : obj.fname = file B (lines); obj.read()
+    op 'rewrite': obj.write() over file A; obj.read()  (the file read is what is then on disk)
+    Returns (second read by the same object, read of the same file by a fresh object, text lines of
+    that file) or None when the first read / the write fails (nothing to compare then)."""
+    from pathlib import Path
+
+    from haptools.data.haplotypes import Haplotypes
+
+    classes = make_classes(cfg)
+    ext = ".hap" + (".gz" if gz else "")
+    pa = os.path.join(d, "first" + ext)
+    write_text(pa, "".join(x + "\n" for x in prior["lines"]), gz)
+    lg, h = _logger()
+    hp = Haplotypes(pa, haplotype=classes["H"], variant=classes["V"], repeat=classes["R"], log=lg)
+    try:
+        hp.read()
+        if prior["op"] == "rewrite":
+            hp.write()
+            target = pa
+            text = read_text(pa)
+            flines = text.split("\n")
+            flines = flines[:-1] if flines and flines[-1] == "" else flines
+        else:
+            target = os.path.join(d, "second" + ext)
+            write_text(target, "".join(x + "\n" for x in lines), gz)
+            hp.fname = Path(target)
+            flines = list(lines)
+    except Exception:  # noqa
+        return None
+    h.recs.clear()
+    try:
+        hp.read(haplotypes=None if sel is None else set(sel))
+        again = {"ok": {"data": observe_data(hp, classes), "logs": classify_logs(h.recs, cfg)}}
+    except Exception as e:  # noqa
+        again = {"err": refine_err(e), "cls": type(e).__name__, "msg": str(e)[:120]}
+    lg2, h2 = _logger()
+    try:
+        fr = Haplotypes(target, haplotype=classes["H"], variant=classes["V"], repeat=classes["R"], log=lg2)
+        fr.read(haplotypes=None if sel is None else set(sel))
+        fresh = {"ok": {"data": observe_data(fr, classes), "logs": classify_logs(h2.recs, cfg)}}
+    except Exception as e:  # noqa
+        fresh = {"err": refine_err(e), "cls": type(e).__name__, "msg": str(e)[:120]}
+    return again, fresh, flines
 
 
 # ----------------------------------------------------------------------------
@@ -399,7 +452,7 @@ COMMENTS_IMPURE = ["#H\tfoo", "#H\t", "#V\ta\tb", "#\tversion\t0.2.0", "#\tversi
                    "#H\tzz\ts\tdesc", "#\tversion", "#\torderV", "#R\tw\td\t"]
 
 
-def gen_header(rng, cfg, mal=0.15):
+def gen_header(rng, cfg, mal=0.15, drop=0.15):
     """Returns (header lines, {t: column names in the file's column order}, {t: {name: type}})."""
     lines = []
     cols, ctypes = {}, {}
@@ -415,7 +468,7 @@ def gen_header(rng, cfg, mal=0.15):
         req = {n: ty for n, ty in cfg[t]["fields"]}
         names = list(req)
         # drop some requested names (undeclared but required), add unrequested ones
-        if names and rng.random() < 0.15:
+        if names and rng.random() < drop:
             names = names[: int(rng.integers(0, len(names)))]
         spare = [n for n in NAME_POOL if n not in req]
         for _ in range(int(rng.choice([0, 0, 1, 2]))):
@@ -467,11 +520,11 @@ def gen_token(rng, ty, bad=0.02):
     return str(rng.choice([repr(x), format(x, ".2f"), format(x, ".3f"), str(int(x)) if x == x and abs(x) < 1e6 else repr(x)]))
 
 
-def gen_records(rng, cfg, cols, ctypes, mal=0.1):
+def gen_records(rng, cfg, cols, ctypes, mal=0.1, bad=0.02):
     def rec(t, mand_tokens):
         toks = list(mand_tokens)
         for n in cols[t]:
-            toks.append(gen_token(rng, ctypes[t].get(n, "s")))
+            toks.append(gen_token(rng, ctypes[t].get(n, "s"), bad))
         if rng.random() < mal * 0.3 and toks:
             toks = toks[:-1]
         if rng.random() < mal * 0.2:
@@ -566,7 +619,7 @@ class Header(_Base):
     coq_check = "check_header_rel"
     coq_case_type = "hcase"
     coq_model = "model_header"
-    budget = {"quick": 420, "thorough": 4000}
+    budget = {"quick": 380, "thorough": 4000}
 
     def generate(self, rng, n, tier):
         ver = current_version()
@@ -700,6 +753,24 @@ class Read(_Base):
                 pool = ids + ["zz"]
                 sel = sorted(set(str(x) for x in rng.choice(pool, size=int(rng.integers(0, 3)))))
             out.append({"cfg": cfg, "lines": lines, "sel": sel, "gz": bool(rng.random() < 0.25)})
+        # reuse stream: one object reads file A, then (point) file B with another header layout, or
+        # (rewrite) the file it wrote over A; parsing must follow the header of the file being read
+        k = max(4, n // 4) if out else 0
+        for j in range(k):
+            cfg = gen_cfg(rng, ver)
+            if not any(cfg[t]["fields"] for t in LETTERS) and rng.random() < 0.8:
+                cfg = gen_cfg(rng, ver)
+            ha, ca, ta = gen_header(rng, cfg, mal=0.0, drop=0.0)
+            ra, ida = gen_records(rng, cfg, ca, ta, mal=0.0, bad=0.0)
+            op = "point" if rng.random() < 0.65 else "rewrite"
+            if op == "point":
+                hb, cb, tb = gen_header(rng, cfg, mal=0.0 if rng.random() < 0.85 else 0.2)
+                rb, idb = gen_records(rng, cfg, cb, tb, mal=0.0)
+                lines = [[x, False] for x in hb + rb]
+            else:
+                lines = [[x, False] for x in ha + ra]
+            out[(j * 3 + 1) % len(out)] = {"cfg": cfg, "lines": lines, "sel": None, "gz": bool(rng.random() < 0.2),
+                                           "prior": {"lines": ha + ra, "op": op}}
         return out
 
     def exhaustive(self, tier):
@@ -727,6 +798,10 @@ class Read(_Base):
         try:
             full = [x for x, _ in inp["lines"]]
             base = [x for x, ins in inp["lines"] if not ins]
+            if inp.get("prior"):
+                r = do_reuse(inp["cfg"], inp["prior"], full, inp["sel"], inp["gz"], d)
+                if r is not None:
+                    return {"all": r[0], "base": r[1], "file": r[2], "reused": True}
             a = do_read(inp["cfg"], full, inp["sel"], inp["gz"], d, "full")
             b = a if len(base) == len(full) else do_read(inp["cfg"], base, inp["sel"], inp["gz"], d, "base")
             return {"all": a, "base": b}
@@ -737,11 +812,14 @@ class Read(_Base):
         E = Enc()
         if "all" not in obs:
             obs = {"all": obs, "base": obs}
-        ls = L.lst(inp["lines"], lambda x: f"({E.line(parse_line(x[0]))}, {L.b(x[1])})")
+        src = [[x, False] for x in obs["file"]] if obs.get("reused") else inp["lines"]
+        ls = L.lst(src, lambda x: f"({E.line(parse_line(x[0]))}, {L.b(x[1])})")
         return (f"(mkr {E.cfg(inp['cfg'])} {E.sel(inp['sel'])} {ls} {E.rout(obs['all'])} {E.rout(obs['base'])})")
 
     def nontrivial(self, inp, obs):
         full = [x for x, _ in inp["lines"]]
+        if inp.get("prior"):
+            return bool(isinstance(obs, dict) and obs.get("reused") and records_of(obs.get("file", [])))
         return bool(records_of(full)) and (any(i for _, i in inp["lines"]) or any(inp["cfg"][t]["fields"] for t in LETTERS))
 
     def classes(self, inp, obs):
@@ -750,6 +828,9 @@ class Read(_Base):
                f"inserted={sum(1 for _, i in inp['lines'] if i)}"]
         if inp["sel"] is not None:
             out.append("subset-of-ids")
+        if inp.get("prior"):
+            out.append("reused-object-" + inp["prior"]["op"] if isinstance(obs, dict) and obs.get("reused")
+                       else "reused-object-first-read-failed")
         first = next((j for j, x in enumerate(full) if x and not x.startswith("#")), None)
         if first is not None and any(i and j > first for j, (x, i) in enumerate(inp["lines"])):
             out.append("comment-after-first-record")
@@ -782,6 +863,14 @@ class Read(_Base):
             yield dict(inp, gz=False)
         if inp["sel"] is not None:
             yield dict(inp, sel=None)
+        if inp.get("prior"):
+            pl = inp["prior"]["lines"]
+            for j in range(len(pl)):
+                q = dict(inp["prior"], lines=pl[:j] + pl[j + 1:])
+                if inp["prior"]["op"] == "rewrite":
+                    yield dict(inp, prior=q, lines=[[x, False] for x in q["lines"]])
+                else:
+                    yield dict(inp, prior=q)
         empty = {"fields": [], "extras": []}
         for t in LETTERS:
             if inp["cfg"][t]["fields"]:
@@ -794,6 +883,13 @@ class Read(_Base):
             yield dict(inp, lines=ls)
 
     def signature(self, inp, obs):
+        if inp.get("prior") and isinstance(obs, dict) and obs.get("reused"):
+            a, b = obs.get("all", {}), obs.get("base", {})
+            if a != b:
+                how = f"raises {a.get('cls', a.get('err'))}" if "err" in a else "returns other records"
+                return (f"re-used Haplotypes object ({inp['prior']['op']}): the second read {how} where a fresh object "
+                        "reads the file according to its own header")
+            return "re-used Haplotypes object: read differs from the columns the file's header binds"
         full = [x for x, _ in inp["lines"]]
         o = obs.get("all", obs) if isinstance(obs, dict) else {}
         b = obs.get("base", {}) if isinstance(obs, dict) else {}
@@ -854,7 +950,7 @@ class Roundtrip(_Base):
     coq_check = "check_roundtrip_rel"
     coq_case_type = "wcase"
     coq_model = "model_roundtrip"
-    budget = {"quick": 300, "thorough": 3000}
+    budget = {"quick": 250, "thorough": 3000}
 
     def generate(self, rng, n, tier):
         ver = current_version()
@@ -928,6 +1024,23 @@ class Roundtrip(_Base):
                 res["bytes2"] = {"ok": file_lines(read_text(p2))}
             except Exception as e:  # noqa
                 res["bytes2"] = {"err": refine_err(e), "cls": type(e).__name__}
+                return res
+            # the same object goes on: it reads the file it has just written (whose header differs from
+            # the first file's when the reader asked for fewer extras) and writes it once more
+            h2.recs.clear()
+            try:
+                hp2.read()
+                res["read3"] = {"ok": {"data": observe_data(hp2, rc), "logs": classify_logs(h2.recs, rcfg)}}
+            except Exception as e:  # noqa
+                res["read3"] = {"err": refine_err(e), "cls": type(e).__name__, "msg": str(e)[:120]}
+                return res
+            try:
+                p3 = os.path.join(d, "three" + ext)
+                hp2.fname = Path(p3)
+                hp2.write()
+                res["bytes3"] = {"ok": file_lines(read_text(p3))}
+            except Exception as e:  # noqa
+                res["bytes3"] = {"err": refine_err(e), "cls": type(e).__name__}
             return res
         finally:
             shutil.rmtree(d, ignore_errors=True)
@@ -962,8 +1075,21 @@ class Roundtrip(_Base):
         if b2 is None:
             # nothing was read: the model's second write is of the empty collection; mirror what it cannot know
             b2 = {"err": 97}
-        return (f"(mkw {E.cfg(inp['cfg'])} {E.cfg(inp['rcfg'])} {L.b(inp['same'])} {L.lst(data)} {lines(b1)} "
-                f"{E.rout(rd)} {L.lst(d2)} {lines(b2)})")
+        first = (f"(mkw {E.cfg(inp['cfg'])} {E.cfg(inp['rcfg'])} {L.b(inp['same'])} {L.lst(data)} {lines(b1)} "
+                 f"{E.rout(rd)} {L.lst(d2)} {lines(b2)})")
+        if "read3" not in obs or "ok" not in b2 or "ok" not in rd or (rd["ok"]["data"] and not d2):
+            return first
+        # second sub-case: the reader object itself round-trips what it read (read; write; read again; write)
+        r3 = obs["read3"]
+        d3 = []
+        if "ok" in r3:
+            d3 = [self._wentry(E, inp["rcfg"], e) for e in r3["ok"]["data"]]
+            if any(x is None for x in d3):
+                d3 = []
+        b3 = obs.get("bytes3", {"err": 97})
+        rc = E.cfg(inp["rcfg"])
+        second = (f"(mkw {rc} {rc} true {L.lst(d2)} {lines(b2)} {E.rout(r3)} {L.lst(d3)} {lines(b3)})")
+        return [first, second]
 
     def nontrivial(self, inp, obs):
         return len(inp["data"]) > 0
@@ -996,6 +1122,12 @@ class Roundtrip(_Base):
         for k in ("bytes1", "read", "bytes2"):
             if isinstance(obs, dict) and "err" in obs.get(k, {}):
                 return f"roundtrip {k} raises {obs[k].get('cls', obs[k]['err'])}"
+        if isinstance(obs, dict) and "err" in obs.get("read3", {}):
+            return (f"same object: read; write; read again raises {obs['read3'].get('cls', obs['read3']['err'])} "
+                    "(the file just written is not parsed according to its own header)")
+        if isinstance(obs, dict) and "ok" in obs.get("read3", {}) and "ok" in obs.get("read", {}) \
+                and obs["read3"]["ok"]["data"] != obs["read"]["ok"]["data"]:
+            return "same object: read; write; read again returns other records than the first read"
         return "roundtrip: records read back differ from what was written, or the second write differs"
 
 
